@@ -210,17 +210,30 @@ def sweep_groups(sw, r, tier):
         if decl3:
             G3 = make_group({nm: corr_fmt.KINDS[k] for nm, k in decl3})
             others_g.append(G3({nm: grids[m][0] for m, (nm, _) in enumerate(decl3)}))
+        # the same member names with another member class: a different shape too
+        swap = {"serial": "storage", "storage": "serial", "datetime": "version", "version": "naming", "naming": "serial"}
+        decl4 = [(decl[0][0], swap[decl[0][1]])] + decl[1:]
+        try:
+            G4 = make_group({nm: corr_fmt.KINDS[k] for nm, k in decl4})
+            others_g.append(G4({nm: (gen_fmt.make_obj(k, gen_fmt.value_of(k, r)) if m == 0 else grids[m][0]) for m, (nm, k) in enumerate(decl4)}))
+        except Exception:  # noqa: BLE001
+            pass
         for og in others_g:
             a = groups[0]
             case = {**dcase, "clause": "shape", "a": str(a), "b": type(og).__name__ + ":" + ",".join(og.base_groups)}
             sw.note(["shape", case["decl"], case["b"]], "shape")
-            sw.check((a == og) is False and (a != og) is True, "groups of different shapes compare equal", case, False, a == og)
+            try:
+                sw.check((a == og) is False and (a != og) is True, "groups of different shapes compare equal", case, False, a == og)
+            except Exception as e:  # noqa: BLE001
+                sw.check(False, "== on groups of different shapes raises", case, False, f"{type(e).__name__}: {e}")
             for op, f in (("<", lambda x, y: x < y), (">", lambda x, y: x > y), ("<=", lambda x, y: x <= y), (">=", lambda x, y: x >= y)):
                 try:
                     res = f(a, og)
                     sw.check(False, "groups of different shapes are comparable", {**case, "op": op}, "TypeError", res)
                 except TypeError:
                     pass
+                except Exception as e:  # noqa: BLE001 - the members were compared although the shapes differ
+                    sw.check(False, "comparing groups of different shapes does not raise TypeError", {**case, "op": op}, "TypeError", f"{type(e).__name__}: {e}")
 
 
 def sweep(tier: str) -> Sweep:
